@@ -138,8 +138,11 @@ type segment struct {
 	src      blobserver.Storage
 	sh       *server.SyncHandler
 	buildErr error
-	built    bool
-	crashed  bool
+	// the second handler (Config.Dests == 2)
+	sh2       *server.SyncHandler
+	buildErr2 error
+	built     bool
+	crashed   bool
 }
 
 func (engine) Exec(rc *harness.RunCtx, p *harness.Plan) *harness.Outcome {
@@ -216,6 +219,9 @@ func (r *run) exec() {
 	r.w = sim.NewWorld(env, r.rc.Scratch)
 	r.w.Register(&sim.Node{Type: "sim", Name: "src"})
 	r.w.Register(&sim.Node{Type: "sim", Name: "dst"})
+	if r.cfg.Dests == 2 {
+		r.w.Register(&sim.Node{Type: "sim", Name: "dst2"})
+	}
 
 	segStart, segNo := 0, 0
 	for {
@@ -282,7 +288,7 @@ func (r *run) exec() {
 	r.rc.Sched.Go("tail", func() {
 		time.Sleep(317 * time.Millisecond)
 		for t := 0; t <= r.cfg.BoundS; t++ {
-			if r.drainS < 0 && r.allDelivered() && r.w.KVState("queue").Len() == 0 {
+			if r.drainS < 0 && r.allDelivered() && r.w.KVState("queue").Len() == 0 && (r.cfg.Dests != 2 || r.w.KVState("queue2").Len() == 0) {
 				r.drainS = t
 				return
 			}
@@ -381,6 +387,42 @@ func (s *segment) build() {
 		return
 	}
 	s.src = src
+	if r.cfg.Dests == 2 {
+		// a second handler on the same source, constructed at the same
+		// time (serverinit builds its handlers one after the other, but
+		// nothing in the constructor's contract asks for that)
+		if _, err := ld.GetStorage("/dst2/"); err != nil {
+			s.buildErr = err
+			return
+		}
+		done := make(chan struct{})
+		r.rc.Sched.Go("bld2", func() {
+			defer close(done)
+			defer func() {
+				if rec := recover(); rec != nil {
+					s.buildErr2 = fmt.Errorf("panic: %v", rec)
+				}
+			}()
+			conf := jsonconfig.Obj{
+				"from":           "/src/",
+				"to":             "/dst2/",
+				"queue":          map[string]any{"type": "simkv", "name": "queue2"},
+				"copierPoolSize": float64(r.cfg.Pool),
+			}
+			h, err := blobserver.CreateHandler("sync", ld, conf)
+			if err != nil {
+				s.buildErr2 = err
+				return
+			}
+			s.sh2, _ = h.(*server.SyncHandler)
+		})
+		defer func() {
+			<-done
+			if s.buildErr == nil && s.buildErr2 != nil {
+				s.buildErr = fmt.Errorf("second handler: %w", s.buildErr2)
+			}
+		}()
+	}
 	if r.cfg.Ctor == "new" {
 		s.sh = server.NewSyncHandler("/src/", "/dst/", src, dst, r.w.KV("queue"))
 		return
@@ -442,17 +484,23 @@ func (r *run) noteRestart(seg *segment, opIdx int) {
 	r.scanDst(opIdx)
 }
 
-// allDelivered: every acknowledged upload is at the destination, bit-identical.
+// allDelivered: every acknowledged upload is at the destination(s), bit-identical.
 func (r *run) allDelivered() bool {
-	dst := r.w.Store("dst")
-	for _, u := range r.uploads {
-		if !u.Acked {
-			continue
-		}
-		b := r.pool[u.B]
-		got, ok := dst.Get(b.Ref.String())
-		if !ok || !bytes.Equal(got, b.Data) {
-			return false
+	names := []string{"dst"}
+	if r.cfg.Dests == 2 {
+		names = append(names, "dst2")
+	}
+	for _, name := range names {
+		dst := r.w.Store(name)
+		for _, u := range r.uploads {
+			if !u.Acked {
+				continue
+			}
+			b := r.pool[u.B]
+			got, ok := dst.Get(b.Ref.String())
+			if !ok || !bytes.Equal(got, b.Data) {
+				return false
+			}
 		}
 	}
 	return true
